@@ -23,7 +23,7 @@ ID = "C18"
 LEVEL = "exploration"
 TIERS = {
     "quick": {"runs": 900, "wall_cap": 170, "timeout": 160, "dups": 8, "step_cap": 1200},
-    "thorough": {"runs": 30000, "wall_cap": 1750, "timeout": 300, "dups": 32, "step_cap": 4000},
+    "thorough": {"runs": 9000, "wall_cap": 1750, "timeout": 300, "dups": 32, "step_cap": 4000},
 }
 RULE = ("Each run: one or two whole Wang-Landau runs (WangLandauMachine.run, directly or through SequencePermutants) on a seeded 6-16 residue "
         "sequence given as string / fresh Sequence / Sequence with kappa cached, with seeded geometry (M in {2,3,4,5,8,10}, range [a/M,b/M], "
@@ -50,7 +50,7 @@ ASSUMPTIONS = ["the requested range coincides with the equal partition (binmin=a
 PROBES = ["rerun_on_same_machine", "kappa_above_one_binned_to_top", "stopped_at_f_equal_threshold", "flatcheck_exact_tie", "start_outside_range", "proposal_outside_range_with_u_zero", "u_just_below_P", "u_just_above_P", "accepted_uphill", "rejected_step",
           "flatcheck_flat", "flatcheck_not_flat", "converged", "step_cap_hit", "hook_assisted", "seam_only", "fs_fault_fired", "crash_fired",
           "restart_into_dirty_dir", "restart_after_crash", "oserror_propagated", "partial_range", "warm_sequence_object", "permutants_api",
-          "iteration_ge_3", "aborted_by_move", "same_bin_accept", "multi_bin_visit"]
+          "iteration_ge_3", "same_bin_accept", "multi_bin_visit"]
 
 P_FS = 1 / (1 + 41.5 + 69.3 + 78.2)
 P_SC = 41.5 / (1 + 41.5 + 69.3 + 78.2)
